@@ -12,13 +12,16 @@ permissions attached to that key allow its method and path; otherwise it is refu
 Every theorem below is for ALL handlers / configurations, listen addresses, id indexes, requests,
 handler effects `H`, initial states, recursion budgets (= any number of /id/ redirects) and for
 EVERY routing function `mux` (= every route table modules can register, whatever pattern syntax
-they use; `muxOf` is the instance the driver runs).  Two clauses do not hold of the code as it is; their negations are proved in
-`Witness.lean` (imported here so that it is built and audited with the theorems) and the provable parts are the `_partial` theorems here:
-  * "websocket upgrades are always refused"            (case variants, later header values)
+they use; `muxOf` is the instance the driver runs).  One clause does not hold of the code as it is; its negation is proved in
+`Witness.lean` (imported here so that it is built and audited with the theorems) and the provable part is the `_partial` theorem here:
   * "missing Origin/Referer is refused"                (when an allowed origin has an empty host)
+The websocket clause was false until /repo cc84cea (case variants, later header values); it now
+holds at full strength (`websocket_refused`); `Witness.websocket_old_code_fails` keeps the two
+former counter-examples as a statement about the OLD test.
 -/
 import CaddyModel.C13.Lemmas
 import CaddyModel.C13.Witness
+import CaddyModel.Gen.AdminGate
 
 namespace CaddyModel.C13
 
@@ -159,7 +162,7 @@ theorem cors_only_for_allowed_origin (H : Bytes → Req → σ → σ) (mux : By
     rw [localGate_withPath] at hl
     cases heo : h.enforceOrigin with
     | false =>
-      unfold localGate at hl
+      unfold localGate localGateWith at hl
       split at hl
       · cases hl
       · split at hl
@@ -172,25 +175,55 @@ theorem cors_only_for_allowed_origin (H : Bytes → Req → σ → σ) (mux : By
 
 -- ================================================================ websocket
 
-/-
-FULL STATEMENT (does not hold, see `Witness.websocket_refused_full_fails`):
-    IsWebsocketUpgrade r → Untouched (serveHTTP H mux h idx fuel r s) s
-The code tests `strings.Contains(r.Header.Get("Upgrade"), "websocket")`: first value only, case-sensitive.
--/
-/-- **websocket upgrades**, provable part: a request whose FIRST Upgrade value contains the
-    lower-case token is refused before any handler, on every endpoint (decidable exclusion of the
-    rest: `containsSub (firstUpgrade r) sWebsocket`). -/
-theorem websocket_refused_partial (H : Bytes → Req → σ → σ) (mux : Bytes → Bytes → Route) (h : Handler) (idx : Index) (fuel : Nat)
-    (r : Req) (s : σ) (hw : containsSub (firstUpgrade r) sWebsocket = true) :
+/-- **websocket upgrades are always refused** (full strength since /repo cc84cea): a request with
+    an Upgrade value — in any position of a repeated header — that contains "websocket" in any
+    ASCII casing reaches no handler and changes no state, on every endpoint and route. -/
+theorem websocket_refused (H : Bytes → Req → σ → σ) (mux : Bytes → Bytes → Route) (h : Handler)
+    (idx : Index) (fuel : Nat) (r : Req) (s : σ) (hw : IsWebsocketUpgrade r) :
     Untouched (serveHTTP H mux h idx fuel r s) s := by
   apply serve_untouched_of_no_dispatch
   intro d hd
   obtain ⟨⟨c, hp⟩, _⟩ := every_dispatch_is_gated H mux h idx fuel r s d hd
   have hl := ((gate_pass_iff h _ c).1 hp).2
   rw [localGate_withPath] at hl
-  have := (localGate_pass h r c hl).1
-  rw [hw] at this
-  cases this
+  have hno := (localGate_pass h r c hl).1
+  obtain ⟨v, hv, hc⟩ := hw
+  have : wsCheck r = true := by
+    unfold wsCheck
+    exact List.any_eq_true.2 ⟨v, hv, hc⟩
+  rw [this] at hno
+  cases hno
+
+/-- … and when the first pass is reached (fuel ≠ 0) on a local endpoint the answer is the
+    websocket refusal itself. -/
+theorem websocket_refused_answer (H : Bytes → Req → σ → σ) (mux : Bytes → Bytes → Route) (h : Handler)
+    (idx : Index) (fuel : Nat) (r : Req) (s : σ) (hl : h.remote = none) (hw : IsWebsocketUpgrade r) :
+    (serveHTTP H mux h idx (fuel + 1) r s).final = .refused .websocket := by
+  obtain ⟨v, hv, hc⟩ := hw
+  have hws : wsCheck r = true := by
+    unfold wsCheck
+    exact List.any_eq_true.2 ⟨v, hv, hc⟩
+  have hg : gate h r = .refuse .websocket := by
+    simp [gate, aclGate, hl, localGate, localGateWith, hws]
+  exact (refused_at_entry_untouched H mux h idx fuel r s _ hg).1
+
+-- ================================================================ the order of the checks, re-read from the source
+
+/-- **the modelled gate order is the order of the statements of `serveHTTP` in /repo's admin.go as
+    it is now** (`Gen/AdminGate.lean` is regenerated from the source by tools/extract on every
+    run): the sequence of top-level checks extracted from the source equals the sequence in which
+    the model's `gate` answers a ladder of probe requests (everything wrong → ACL; no ACL →
+    websocket; no upgrade → host; allowed host → origin; allowed origin → mux), the mux call is
+    the last statement of `serveHTTP`, and it is the only `mux.ServeHTTP` call site of admin.go —
+    which is what `state_changes_only_through_dispatch` and `every_dispatch_is_gated` rely on. -/
+theorem gate_order_matches_source :
+    Gen.adminGateSequence =
+      [answeredBy probeRemote probeAllWrong, answeredBy probeLocal probeAllWrong,
+       answeredBy probeLocal { probeAllWrong with upgrade := [] },
+       answeredBy probeLocal { probeAllWrong with upgrade := [], host := str "localhost:2019" },
+       answeredBy probeLocal probeAllRight]
+    ∧ Gen.adminMuxIsLastStatement = true ∧ Gen.adminMuxCallSites = 1 := by
+  decide
 
 -- ================================================================ remote endpoint
 
@@ -340,9 +373,10 @@ example : (serveReal count (newAdminHandler exCfg exAddr false exPats) exIdx 3 e
 def exNoOrigin : Req := { exGood with origin := [], originUrl := emptyUrl }
 example : exCfg.enforceOrigin = true ∧ OriginMissing exNoOrigin ∧ exNoOrigin.refererUrl = ⟨true, [], []⟩ ∧
     (allowedOrigins exCfg.origins exAddr).all (fun al => al.host != []) = true := by decide
--- websocket_refused_partial
-def exWs : Req := { exGood with upgrade := [str "websocket"] }
-example : containsSub (firstUpgrade exWs) sWebsocket = true ∧ IsWebsocketUpgrade exWs := by decide
+-- websocket_refused / websocket_refused_answer: capitals, and a second Upgrade value
+def exWs : Req := { exGood with upgrade := [str "h2c", str "WebSocket"] }
+example : IsWebsocketUpgrade exWs ∧ (newAdminHandler exCfg exAddr false exPats).remote = none := by decide
+example : (serveReal count (newAdminHandler exCfg exAddr false exPats) exIdx 3 exWs 0).final = .refused .websocket := by decide
 -- remote endpoint: key 1 may GET under /config/, key 2 may do anything
 def exAcl : List Access := [⟨[1], [⟨some [str "GET"], some [str "/config/"]⟩]⟩, ⟨[2], []⟩]
 def exRemoteCfg : AdminCfg := ⟨none, false, some exAcl⟩
